@@ -520,14 +520,42 @@ def work_handles(chunk_id, seed, n, binary, wd, part):
                 if l and not l.startswith(("buf ", "dump_"))][:25]))
 
 
-KINDS = {"handles": work_handles, "hist": work_hist, "family": work_family, "twin": work_twin,
+def work_iofault(chunk_id, seed, n, binary, wd, part):
+    """every function that writes or reads a file runs once under a
+    persistent stdio fault (fi build, harness/failio.c) and is then used
+    again without it: contract of the reported failure, usable afterwards"""
+    import gen_iofault
+    cases, metas = [], {}
+    for k in range(n):
+        rng = np.random.default_rng([seed, chunk_id, k, 6666])
+        name, text, L = gen_iofault.generate(rng, chunk_id + k)
+        cid = "io%d_%d_%s" % (chunk_id, k, name)
+        cases.append((cid, text))
+        metas[cid] = L
+    ok = run_and_std(binary, cases, wd, part)
+    for cid, text in cases:
+        if cid not in ok:
+            continue
+        part["evaluations"] += 1
+        contract(ok[cid], text, part, where="[iofault] ")
+        gen_iofault.judge(ok[cid], text, metas[cid], PROP, part)
+        if not part["samples"]:
+            L = metas[cid]
+            lines = text.split("\n")
+            part["samples"].append(dict(
+                kind="iofault:" + L["kind"],
+                fault=lines[L["arm"] - 1],
+                faulted_call=str(ok[cid].ev(L["fault"]))[:300]))
+
+
+KINDS = {"iofault": work_iofault, "handles": work_handles, "hist": work_hist, "family": work_family, "twin": work_twin,
          "late": work_late}
 
 
 def work(chunk_id, payload):
     seed, kind, n, binary, workroot, want_sample = payload
     part = new_part()
-    wd = os.path.join(workroot, "w%d" % chunk_id)
+    wd = os.path.join(workroot, "w%s%d" % (kind[:2], chunk_id))
     KINDS[kind](chunk_id, seed, n, binary, wd, part)
     if not want_sample:
         part["samples"] = []
@@ -537,16 +565,18 @@ def work(chunk_id, payload):
 def main():
     chk = R.Check(PROP)
     binary = chk.build("asan")
+    fibin = chk.build("fi")
     if chk.tier == "quick":
         plan = [("hist", 32, 80), ("family", 4, 6), ("twin", 16, 30),
-                ("late", 12, 24), ("handles", 8, 24)]
+                ("late", 12, 24), ("handles", 8, 24), ("iofault", 16, 27)]
     else:
         plan = [("hist", 256, 200), ("family", 16, 16), ("twin", 128, 60),
-                ("late", 64, 60), ("handles", 48, 40)]
+                ("late", 64, 60), ("handles", 48, 40), ("iofault", 128, 90)]
     payloads = []
     for kind, nchunks, per in plan:
         per = max(1, int(per * chk.args.scale))
-        payloads += [(chk.seed, kind, per, binary, chk.workroot, i == 0)
+        payloads += [(chk.seed, kind, per, fibin if kind == "iofault"
+                      else binary, chk.workroot, i == 0)
                      for i in range(nchunks)]
     # long chunks first
     for part in R.pmap(work, payloads):
@@ -563,7 +593,11 @@ def main():
              "scenarios with refused vnacal_new_* calls interleaved and their "
              "twin without them, (3) solve failures (too few / repeated "
              "standards / p-value) repaired and applied, failed vnadata "
-             "init/load/convert followed by full reuse; distinct = distinct "
+             "init/load/convert followed by full reuse, (4) every file "
+             "writing / reading function under a persistent stdio fault "
+             "(disk full after N bytes, read error after N bytes, failing "
+             "close, failing open; N anywhere in the file and around buffer "
+             "boundaries) and then again without it; distinct = distinct "
              "(function, errno, category, message class) of failing calls + "
              "(function, errno) of refusals compared by dumps + twin and "
              "late-failure shapes",
@@ -573,7 +607,13 @@ def main():
                      "calls with NULL / dangling object pointers are outside "
                      "the property",
                      "errno after a successful call is not specified",
-                     "allocation failures are covered by C12"])
+                     "allocation failures are covered by C12",
+                     "I/O faults are persistent (once a write or read fails "
+                     "every later one on that stream fails too); a fault "
+                     "must make vnadata_save / vnacal_save fail, for the f* "
+                     "functions and for read faults only the contract of a "
+                     "reported failure and the usability afterwards are "
+                     "judged"])
 
 
 if __name__ == "__main__":
